@@ -1,3 +1,4 @@
+\* every class sequence of length <= 6, every schedule: 39,189 distinct / 1.65M generated (~2 min on an idle machine with 6 workers)
 SPECIFICATION Spec
 CONSTANTS
   Ns = {1, 2, 3, 4, 5, 6}
